@@ -21,7 +21,7 @@ FormatErr == {"invalid_start", "invalid_sep", "unequal", "unexpected_end"}
 \* hwL/hwS/setcap: allocation high-water marks (C18)
 InitState(nslots, cap) ==
   [cur |-> 1, mode |-> "stream", lim |-> 0, sets |-> [t \in 1..nslots |-> <<>>], ctx |-> {},
-   cap |-> cap, cap0 |-> cap, hwL |-> 0, hwS |-> [t \in 1..nslots |-> <<>>], setcap |-> [t \in 1..nslots |-> 0],
+   cap |-> cap, cap0 |-> cap, eof |-> FALSE, fullfill |-> [t \in 1..nslots |-> FALSE], capAtFill |-> [t \in 1..nslots |-> -1], hwL |-> 0, hwS |-> [t \in 1..nslots |-> <<>>], setcap |-> [t \in 1..nslots |-> 0],
    nread |-> 0, lcause |-> ""]
 
 \* ---------------------------------------------------------------- comparing records
@@ -50,7 +50,8 @@ MsgOK(e) ==
 SrcErrs(e) == {i \in 1..Len(e.io) : e.io[i].e \notin {"", "interrupted"}}
 IoViol(e) ==
   LET errs == SrcErrs(e) IN
-  (IF e.res.k = "io" /\ (errs = {} \/ e.io[Max(errs)].e # e.res.kind)
+  \* ("seek_interrupted" is how the harness names an Interrupted error raised by a seek of the source: the reader reports kind "interrupted")
+  (IF e.res.k = "io" /\ (errs = {} \/ (LET k == e.io[Max(errs)].e IN IF k = "seek_interrupted" THEN "interrupted" ELSE k) # e.res.kind)
    THEN {<<"C14", "io_error_not_from_this_call_or_kind_changed">>} ELSE {})
   \cup (IF errs # {} /\ e.res.k \notin {"io", "panic", "hang"}
         THEN {<<"C14", "source_error_not_returned_by_this_call">>} ELSE {})
@@ -234,6 +235,8 @@ AllocViolNext(s, e) ==
   ELSE IF Len(e.res.lines) + 1 > s.hwL THEN {} ELSE {<<"C18", "next_allocated_in_steady_state">>}
 \* nxl: line count (+1) of the record after the batch, which the reader may already have begun to scan;
 \* nxerr: an invalid record follows the batch (its error value is built, then reported by the next call)
+\* has the source reported the end of the input (a read that returned nothing) up to and including this call?
+EofSeen(s, e) == s.eof \/ \E i \in 1..Len(e.io) : e.io[i].t = "r" /\ e.io[i].g = 0 /\ e.io[i].e = ""
 AllocViolSet(s, e, batch, nxl, nxerr) ==
   IF e.alloc <= 0 \/ e.res.k # "ok" \/ e.grow # <<>> \/ nxerr THEN {}
   ELSE LET t == e.slot
@@ -242,7 +245,9 @@ AllocViolSet(s, e, batch, nxl, nxerr) ==
                     \/ \E i \in 1..Len(batch) : Len(batch[i].lines) + 1 > hw[i]
                     \/ MaxLines(batch) + 1 > s.hwL
                     \/ nxl > s.hwL
-                    \/ e.setcap[t] # s.setcap[t]
+                    \* the set's buffer is a copy of the reader's: a new capacity is needed when the reader's buffer has grown or
+                    \* when the set was last filled from a partly filled buffer (at the end of the input) - not otherwise
+                    \/ (e.setcap[t] # s.setcap[t] /\ ~(s.fullfill[t] /\ s.capAtFill[t] = e.cap /\ e.cap >= 0))
        IN IF newhw THEN {} ELSE {<<"C18", "set_read_allocated_in_steady_state">>}
 HwAfterSet(s, e, batch) ==
   LET t == e.slot
@@ -334,7 +339,8 @@ JudgeSet(fmt, chain, s, e) ==
                 \cup (IF ~e.sets_panic /\ \E u \in 1..Len(s.setcap) : e.setcap[u] < s.setcap[u]
                       THEN {<<"C18", "record_set_buffer_released">>} ELSE {})
       fabset == IF \E i \in 1..kk : ~Member(chain, batch[i], FALSE) THEN {<<"C06", "fabricated_record_in_set">>} ELSE {}
-      keep == [s EXCEPT !.sets[t] = Strip(batch), !.ctx = @ \cup {"mixed"}, !.setcap = e.setcap]
+      keep == [s EXCEPT !.sets[t] = Strip(batch), !.ctx = @ \cup {"mixed"}, !.setcap = e.setcap,
+                        !.fullfill[t] = (r.k = "ok" /\ ~EofSeen(s, e)), !.capAtFill[t] = e.cap]
       MustRec(i) == i <= N /\ chain[i].okRec /\ chain[i].errs = {} /\ ~chain[i].okEnd
   IN
   IF e.sets_panic \/ r.k \in {"panic", "hang"}
@@ -461,5 +467,6 @@ Judge(fmt, chain, s, e) ==
                                              \/ (i = Len(chain) /\ chain[i].okEnd /\ ~chain[i].okRec /\ chain[i].errs = {})
       c11 == IF (\E x \in core.viol : x[1] \in {"C01", "C02", "C04", "C06"}) /\ wellFormed /\ e.op \in {"next", "iter", "set", "exact"}
              THEN {<<"C11", "well_formed_input_not_parsed_as_written">>} ELSE {}
-  IN [viol |-> core.viol \cup env \cup SetLenViol(e) \cup c11, s |-> [core.s EXCEPT !.cap = cap2, !.ctx = ctx2]]
+      eof2 == IF e.op = "seek" THEN FALSE ELSE IF e.op \in {"serde_set", "shrink", "set_policy"} THEN s.eof ELSE EofSeen(s, e)
+  IN [viol |-> core.viol \cup env \cup SetLenViol(e) \cup c11, s |-> [core.s EXCEPT !.cap = cap2, !.ctx = ctx2, !.eof = eof2]]
 =============================================================================
